@@ -596,6 +596,11 @@ class VectorContainer:
 
         def resolve_indexes(match: re.match) -> str:
             """Convert the contents of a possibly backticked index expression to integer indexes."""
+            # Leave purely positional indexes and slices (no backticks) as
+            # they are: they keep their ordinary Python meaning
+            if match.group(1) is None or '`' not in match.group(1):
+                return match.group(0)
+
             # Treat the contents of `match` as a slice, with up to three
             # components: start, stop, step
             slice_ = match.group(1).split(':')
